@@ -100,6 +100,32 @@ Qed.
     pose proof (Z.mod_pos_bound (b2z (nth 0 sig x00) - 27) 4 ltac:(lia)). lia.
   Qed.
 
+(* small arithmetic facts, stated outside the sections so that lia sees a clean context *)
+Lemma range_true r s n : 0 <= r < n -> r <> 0 -> 0 <= s < n -> s <> 0 ->
+  (1 <=? r) && (r <? n) && (1 <=? s) && (s <? n) = true.
+Proof. lia. Qed.
+
+Lemma recid_range y (b : bool) : 0 <= Z.land y 1 + (if b then 2 else 0) <= 3.
+Proof. destruct (land1_cases y) as [-> | ->]; destruct b; lia. Qed.
+
+Lemma recid_bit y (b : bool) : (Z.land (Z.land y 1 + (if b then 2 else 0)) 1 =? 0) = (Z.land y 1 =? 0).
+Proof. destruct (land1_cases y) as [-> | ->]; destruct b; reflexivity. Qed.
+
+(* the abscissa of the nonce point is restored from r and the high recid bit (needs x < 2n) *)
+Lemma restore_x n p x y : 1 < n -> p <= 2 * n -> 0 <= x < p -> x mod n <> 0 ->
+  (if 1 <? Z.land y 1 + (if n <? x then 2 else 0) then x mod n + n else x mod n) = x.
+Proof.
+  intros Hn Hp Hx Hr. destruct (n <? x) eqn:En.
+  - replace (1 <? Z.land y 1 + 2) with true by (destruct (land1_cases y) as [-> | ->]; lia).
+    apply Z.ltb_lt in En.
+    assert (E : x - n = x mod n) by (apply (Z.mod_unique_pos x n 1 (x - n)); lia).
+    lia.
+  - replace (1 <? Z.land y 1 + 0) with false by (destruct (land1_cases y) as [-> | ->]; lia).
+    apply Z.ltb_ge in En.
+    assert (x <> n) by (intros ->; rewrite Z.mod_same in Hr by lia; lia).
+    apply Z.mod_small. lia.
+Qed.
+
 (* ================================================================================================ *)
 (* Part 2: totality of the verifier                                                                  *)
 Section Total.
@@ -123,7 +149,7 @@ Section Total.
   Hypothesis onc_G : onc G.
   Hypothesis onc_add : forall P Q, onc P -> onc Q -> onc (padd P Q).
   Hypothesis onc_smul : forall a P, onc P -> onc (smul a P).
-  Hypothesis onc_points_for_x : forall x P0 P1, points_for_x x = Some (P0, P1) -> onc P0 /\ onc P1.
+  Hypothesis onc_points_for_x : forall x P0 P1, 0 <= x < p -> points_for_x x = Some (P0, P1) -> onc P0 /\ onc P1.
   Hypothesis coords_range : forall P x y, onc P -> coords P = Some (x, y) -> 0 <= x < p /\ 0 <= y < p.
   Hypothesis p_fits : p <= 2 ^ 256.
 
@@ -136,13 +162,15 @@ Section Total.
     destruct (decode_class text) as [(c & recid & r & s & -> & Hrec) | ->]; [|now right].
     cbn [bind].
     destruct ((1 <=? r) && (r <? n) && (1 <=? s) && (s <? n)) eqn:Erange; cbn [negb]; [|now right].
-    destruct (p <=? (if 1 <? recid then r + n else r)); [now right|].
-    destruct (points_for_x (if 1 <? recid then r + n else r)) as [[p0 p1]|] eqn:Epts; [|now right].
-    assert (Hr : r mod n <> 0).
-    { repeat rewrite andb_true_iff in Erange. destruct Erange as [[[E1 E2] _] _].
-      apply Z.leb_le in E1. apply Z.ltb_lt in E2. rewrite Z.mod_small; lia. }
+    repeat rewrite andb_true_iff in Erange. destruct Erange as [[[E1 E2] _] _].
+    apply Z.leb_le in E1. apply Z.ltb_lt in E2.
+    set (x := if 1 <? recid then r + n else r).
+    assert (Hx0 : 0 <= x) by (unfold x; destruct (1 <? recid); lia).
+    destruct (p <=? x) eqn:Epx; [now right|]. apply Z.leb_gt in Epx.
+    destruct (points_for_x x) as [[p0 p1]|] eqn:Epts; [|now right].
+    assert (Hr : r mod n <> 0) by (rewrite Z.mod_small; lia).
     unfold inverse. apply Z.eqb_neq in Hr. rewrite Hr. cbn [bind].
-    destruct (onc_points_for_x _ _ _ Epts) as [O0 O1].
+    destruct (onc_points_for_x _ _ _ (conj Hx0 Epx) Epts) as [O0 O1].
     set (q := padd _ _).
     assert (Oq : onc q).
     { apply onc_add; apply onc_smul; auto. destruct (Z.land recid 1 =? 0); auto. }
@@ -287,26 +315,15 @@ Section Recover.
       setoid_rewrite E. replace (r * inv_n r * t) with (r * (inv_n r * t)) by ring.
       setoid_rewrite Ht. apply eqm_of_eq. ring. }
     intros z'. unfold pair_for_message_hash.
-    assert (Hrecid : 0 <= recid <= 3).
-    { rewrite Hrec. destruct (land1_cases y) as [-> | ->]; destruct (n <? x); lia. }
+    assert (Hrecid : 0 <= recid <= 3) by (rewrite Hrec; apply recid_range).
     rewrite (decode_encode _ r s rb sb recid c Hrecid eq_refl Erb Esb). cbn [bind].
-    replace ((1 <=? r) && (r <? n) && (1 <=? s) && (s <? n)) with true by lia. cbn [negb].
+    rewrite (range_true r s n Br Hr0 Bs Hs0). cbn [negb].
     (* the abscissa is restored *)
     assert (Hxx : (if 1 <? recid then r + n else r) = x).
-    { rewrite Hrec. destruct (n <? x) eqn:En.
-      - replace (1 <? Z.land y 1 + 2) with true by (destruct (land1_cases y) as [-> | ->]; lia).
-        rewrite Hr. apply Z.ltb_lt in En.
-        assert (E : x mod n = x - n).
-        { symmetry. apply (Z.mod_unique_pos x n 1 (x - n)); lia. }
-        lia.
-      - replace (1 <? Z.land y 1 + 0) with false by (destruct (land1_cases y) as [-> | ->]; lia).
-        apply Z.ltb_ge in En.
-        assert (x <> n). { intros ->. rewrite Z.mod_same in Hr by lia. lia. }
-        rewrite Hr. apply Z.mod_small. lia. }
-    rewrite Hxx. replace (p <=? x) with false by lia.
+    { rewrite Hrec, Hr. apply (restore_x n p x y n_gt1 hasse Hx). now rewrite <- Hr. }
+    rewrite Hxx. replace (p <=? x) with false by (clear - Hx; lia).
     destruct (pfx_complete _ _ _ Ec) as (P0 & P1 & -> & Hsel).
-    assert (Hbit : (Z.land recid 1 =? 0) = (Z.land y 1 =? 0)).
-    { rewrite Hrec. destruct (land1_cases y) as [-> | ->]; destruct (n <? x); reflexivity. }
+    assert (Hbit : (Z.land recid 1 =? 0) = (Z.land y 1 =? 0)) by (rewrite Hrec; apply recid_bit).
     rewrite Hbit, Hsel.
     unfold inverse. apply Z.eqb_neq in Hrn. rewrite Hrn. cbn [bind].
     rewrite smulG_smul, smulG_add.
@@ -321,4 +338,242 @@ Section Recover.
       setoid_rewrite Ik. setoid_rewrite Ir. apply eqm_of_eq. ring. }
     apply smulG_eq in Hexp. rewrite Hexp. reflexivity.
   Qed.
+
+  (* ---- verify_message in terms of pair_for_message_hash ------------------------------------------- *)
+  Definition verify_with (key : keyref) (text : bytes) (z : Z) : outcome bool :=
+    match pair_for text z with
+    | Raise E_ENCODING => Ret false
+    | Raise e => Raise e
+    | OutOfFuel => OutOfFuel
+    | Ret (q, c) => matches q key c
+    end.
+
+  Lemma verify_hash_unfold key text magic z : key <> KUnparseable ->
+    verify key text magic None (Some z) = verify_with key text z.
+  Proof. intros H. destruct key; [reflexivity|reflexivity|congruence]. Qed.
+
+  Lemma verify_msg_unfold key text magic m mh z : hash_for_signing dsha256 magic m = Ret z ->
+    verify key text magic (Some m) mh = verify key text magic None (Some z).
+  Proof. intros H. unfold verify_message. rewrite H. reflexivity. Qed.
+
+  Lemma matches_pair_true q x y c : coords q = Some (x, y) -> matches q (KPair x y) c = Ret true.
+  Proof. intros E. cbn [pair_matches_key]. rewrite E, !Z.eqb_refl. reflexivity. Qed.
+
+  Lemma matches_hash_true q x y c sec : coords q = Some (x, y) -> public_pair_to_sec x y c = Ret sec ->
+    matches q (KHash (Some (hash160 sec))) c = Ret true.
+  Proof.
+    intros E Hs. cbn [pair_matches_key]. rewrite E, Hs. cbn [bind opt_bytes_eqb].
+    now rewrite bytes_eqb_refl.
+  Qed.
+
+  (* exactly which keys a recovered point matches *)
+  Lemma matches_true_inv q key c : matches q key c = Ret true ->
+    exists x y, coords q = Some (x, y) /\
+      match key with
+      | KPair x' y' => x' = x /\ y' = y
+      | KHash h => exists sec, public_pair_to_sec x y c = Ret sec /\ h = Some (hash160 sec)
+      | KUnparseable => False
+      end.
+  Proof.
+    destruct key as [x' y'|h|]; cbn [pair_matches_key]; [| |discriminate].
+    - destruct (coords q) as [[qx qy]|]; [|discriminate]. intros H. apply Ret_inj in H.
+      apply andb_true_iff in H. destruct H as [H1 H2]. apply Z.eqb_eq in H1, H2. eauto.
+    - destruct (coords q) as [[qx qy]|]; [|discriminate].
+      destruct (public_pair_to_sec qx qy c) as [sec| |] eqn:Es; cbn [bind]; try discriminate.
+      intros H. apply Ret_inj in H. exists qx, qy. split; [reflexivity|]. exists sec. split; [first [exact Es | reflexivity]|].
+      destruct h as [h|]; cbn [opt_bytes_eqb] in H; [|discriminate]. apply bytes_eqb_eq in H. now subst.
+  Qed.
+
+  (* ---- (a) the signer is recovered and verifies, by key and by address ----------------------------- *)
+  Lemma sign_recovers fuel d z c text : d mod n <> 0 -> sign_sig fuel d z c = Ret text ->
+    pair_for text z = Ret (smul d G, c).
+  Proof.
+    intros Hd H. destruct (pair_for_signed _ _ _ _ _ H) as (ir & _ & Hp). rewrite Hp. cbv zeta.
+    replace (d + ir * (z - z)) with d by ring.
+    destruct (coords (smul d G)) eqn:E; [reflexivity|]. apply smulG_inf in E. contradiction.
+  Qed.
+
+  Lemma sign_verifies fuel d z c text magic : d mod n <> 0 -> sign_sig fuel d z c = Ret text ->
+    pair_for text z = Ret (smul d G, c) /\
+    exists x y, coords (smul d G) = Some (x, y) /\
+      verify (KPair x y) text magic None (Some z) = Ret true /\
+      forall sec, public_pair_to_sec x y c = Ret sec ->
+        verify (KHash (Some (hash160 sec))) text magic None (Some z) = Ret true.
+  Proof.
+    intros Hd H. pose proof (sign_recovers _ _ _ _ _ Hd H) as R. split; [exact R|].
+    destruct (coords (smul d G)) as [[x y]|] eqn:E; [|apply smulG_inf in E; contradiction].
+    exists x, y. split; [reflexivity|]. split.
+    - rewrite verify_hash_unfold by discriminate. unfold verify_with. rewrite R. exact (matches_pair_true _ x y c E).
+    - intros sec Hs. rewrite verify_hash_unfold by discriminate. unfold verify_with. rewrite R.
+      exact (matches_hash_true _ x y c sec E Hs).
+  Qed.
+
+  (* ---- (b) with the signed hash, nothing but the signer's pair / the hash160 of its SEC form verifies - *)
+  Lemma sign_only_signer fuel d z c text magic key : d mod n <> 0 -> sign_sig fuel d z c = Ret text ->
+    verify key text magic None (Some z) = Ret true ->
+    exists x y, coords (smul d G) = Some (x, y) /\
+      match key with
+      | KPair x' y' => x' = x /\ y' = y
+      | KHash h => exists sec, public_pair_to_sec x y c = Ret sec /\ h = Some (hash160 sec)
+      | KUnparseable => False
+      end.
+  Proof.
+    intros Hd H V. destruct key as [x' y'|h|]; [| |discriminate];
+    (rewrite verify_hash_unfold in V by discriminate; unfold verify_with in V;
+     rewrite (sign_recovers _ _ _ _ _ Hd H) in V; now apply matches_true_inv in V).
+  Qed.
+
+  (* ---- (c) another hash ------------------------------------------------------------------------------ *)
+  Hypothesis coordsG_inj : forall a b, coords (smul a G) = coords (smul b G) -> smul a G = smul b G.
+
+  (* recovery with z' returns the signer exactly when z' = z modulo n; otherwise another multiple of G
+     (or EncodingError when that multiple is the point at infinity) *)
+  Lemma sign_other_hash fuel d z c text z' : sign_sig fuel d z c = Ret text ->
+    (z' mod n = z mod n -> d mod n <> 0 -> pair_for text z' = Ret (smul d G, c)) /\
+    (z' mod n <> z mod n ->
+       pair_for text z' = Raise E_ENCODING \/
+       exists e, smul e G <> smul d G /\ coords (smul e G) <> None /\ pair_for text z' = Ret (smul e G, c)).
+  Proof.
+    intros H. destruct (pair_for_signed _ _ _ _ _ H) as (ir & Hir & Hp). rewrite Hp. cbv zeta. split.
+    - intros Hz Hd.
+      assert (E : d + ir * (z - z') == d).
+      { apply eqm_intro in Hz. setoid_rewrite Hz. apply eqm_of_eq. ring. }
+      apply smulG_eq in E. rewrite E.
+      destruct (coords (smul d G)) eqn:Ec; [reflexivity|]. apply smulG_inf in Ec. contradiction.
+    - intros Hz. destruct (coords (smul (d + ir * (z - z')) G)) eqn:Ec; [right|now left].
+      exists (d + ir * (z - z')). split; [|split; [congruence|reflexivity]].
+      intros Eq. apply smulG_eq in Eq. apply Hz. symmetry.
+      assert (E0 : ir * (z - z') == 0).
+      { apply eqm_intro in Eq.
+        transitivity ((d + ir * (z - z')) - d); [apply eqm_of_eq; ring|].
+        setoid_rewrite Eq. apply eqm_of_eq. ring. }
+      apply Hir in E0.
+      assert (E1 : z == (z - z') + z') by (apply eqm_of_eq; ring).
+      unfold eqm in E1. rewrite E1. apply eqm_intro in E0.
+      change ((z - z') + z' == z'). setoid_rewrite E0. apply eqm_of_eq. ring.
+  Qed.
+
+  Lemma sign_other_hash_key fuel d z c text magic x y z' :
+    d mod n <> 0 -> sign_sig fuel d z c = Ret text -> coords (smul d G) = Some (x, y) ->
+    (verify (KPair x y) text magic None (Some z') = Ret true <-> z' mod n = z mod n).
+  Proof.
+    intros Hd H Ec. rewrite verify_hash_unfold by discriminate. unfold verify_with.
+    destruct (sign_other_hash _ _ _ _ _ z' H) as [Same Other]. split.
+    - intros V. destruct (Z.eq_dec (z' mod n) (z mod n)) as [E|E]; [exact E|exfalso].
+      destruct (Other E) as [R | (e & Hne & _ & R)]; rewrite R in V; [discriminate|].
+      apply matches_true_inv in V. destruct V as (x0 & y0 & Ee & -> & ->).
+      apply Hne. apply coordsG_inj. congruence.
+    - intros E. rewrite (Same E Hd). exact (matches_pair_true _ x y c Ec).
+  Qed.
+
+  (* by address: under another hash the address that verifies belongs to a DIFFERENT point e·G; so the
+     signer's own address verifies only if hash160 collides on the SEC forms of e·G and d·G *)
+  Lemma sign_other_hash_addr fuel d z c text magic h z' :
+    sign_sig fuel d z c = Ret text ->
+    verify (KHash h) text magic None (Some z') = Ret true ->
+    z' mod n = z mod n \/
+    exists e x' y' sec', smul e G <> smul d G /\ coords (smul e G) = Some (x', y') /\
+      public_pair_to_sec x' y' c = Ret sec' /\ h = Some (hash160 sec').
+  Proof.
+    intros H V. rewrite verify_hash_unfold in V by discriminate. unfold verify_with in V.
+    destruct (Z.eq_dec (z' mod n) (z mod n)) as [E|E]; [now left|right].
+    destruct (sign_other_hash _ _ _ _ _ z' H) as [_ Other].
+    destruct (Other E) as [R | (e & Hne & _ & R)]; rewrite R in V; [discriminate|].
+    apply matches_true_inv in V. destruct V as (x0 & y0 & Ee & sec & Hs & ->).
+    exists e, x0, y0, sec. auto.
+  Qed.
+
+  (* ---- (d) the text-message level: sign_message / verify_message(message=...) ------------------------ *)
+  Local Notation sign_msg := (sign_message pt smul G n coords inv_n gen_k dsha256).
+  Local Notation hash_msg := (hash_for_signing dsha256).
+
+  Lemma sign_message_inv fuel magic d c m text : sign_msg fuel magic d c m = Ret text ->
+    exists z, hash_msg magic m = Ret z /\ sign_sig fuel d z c = Ret text.
+  Proof.
+    unfold sign_message. destruct (d =? 0); [discriminate|]. intros H.
+    apply bind_ret_inv in H. destruct H as (z & Hz & H). eauto.
+  Qed.
+
+  Lemma sign_message_verifies fuel magic d c m text :
+    d mod n <> 0 -> sign_msg fuel magic d c m = Ret text ->
+    exists z, hash_msg magic m = Ret z /\ pair_for text z = Ret (smul d G, c) /\
+    exists x y, coords (smul d G) = Some (x, y) /\
+      verify (KPair x y) text magic (Some m) None = Ret true /\
+      forall sec, public_pair_to_sec x y c = Ret sec ->
+        verify (KHash (Some (hash160 sec))) text magic (Some m) None = Ret true.
+  Proof.
+    intros Hd H. destruct (sign_message_inv _ _ _ _ _ _ H) as (z & Hz & Hs).
+    destruct (sign_verifies _ _ _ _ _ magic Hd Hs) as (R & x & y & Ec & V1 & V2).
+    exists z. split; [exact Hz|]. split; [exact R|]. exists x, y. split; [exact Ec|].
+    split; [now rewrite (verify_msg_unfold _ _ _ _ _ _ Hz)|].
+    intros sec Hsec. rewrite (verify_msg_unfold _ _ _ _ _ _ Hz). now apply V2.
+  Qed.
+
+  Lemma verify_msg_true_inv key text magic m' mh : verify key text magic (Some m') mh = Ret true ->
+    exists z', hash_msg magic m' = Ret z' /\ verify key text magic None (Some z') = Ret true.
+  Proof.
+    intros V. destruct (hash_msg magic m') as [z'| |] eqn:Hz.
+    - exists z'. split; [reflexivity|]. now rewrite <- (verify_msg_unfold _ _ _ _ mh _ Hz).
+    - unfold verify_message in V. rewrite Hz in V. destruct key; cbn [bind] in V; try discriminate;
+      destruct e; discriminate.
+    - unfold verify_message in V. rewrite Hz in V. destruct key; cbn [bind] in V; discriminate.
+  Qed.
+
+  Lemma sign_message_only_signer fuel magic d c m text key :
+    d mod n <> 0 -> sign_msg fuel magic d c m = Ret text ->
+    verify key text magic (Some m) None = Ret true ->
+    exists x y, coords (smul d G) = Some (x, y) /\
+      match key with
+      | KPair x' y' => x' = x /\ y' = y
+      | KHash h => exists sec, public_pair_to_sec x y c = Ret sec /\ h = Some (hash160 sec)
+      | KUnparseable => False
+      end.
+  Proof.
+    intros Hd H V. destruct (sign_message_inv _ _ _ _ _ _ H) as (z & Hz & Hs).
+    rewrite (verify_msg_unfold _ _ _ _ _ _ Hz) in V. exact (sign_only_signer _ _ _ _ _ _ _ Hd Hs V).
+  Qed.
+
+  Lemma sign_message_other_message fuel magic d c m text x y m' :
+    d mod n <> 0 -> sign_msg fuel magic d c m = Ret text -> coords (smul d G) = Some (x, y) ->
+    verify (KPair x y) text magic (Some m') None = Ret true ->
+    exists z z', hash_msg magic m = Ret z /\ hash_msg magic m' = Ret z' /\ z' mod n = z mod n.
+  Proof.
+    intros Hd H Ec V. destruct (sign_message_inv _ _ _ _ _ _ H) as (z & Hz & Hs).
+    destruct (verify_msg_true_inv _ _ _ _ _ V) as (z' & Hz' & V').
+    exists z, z'. split; [exact Hz|]. split; [exact Hz'|].
+    exact (proj1 (sign_other_hash_key _ _ _ _ _ magic _ _ z' Hd Hs Ec) V').
+  Qed.
 End Recover.
+
+(* ================================================================================================ *)
+(* Part 4: the hashed string determines (magic, message): two messages with the same digest input are equal *)
+Definition frame (magic m : bytes) : outcome bytes :=
+  bind (stream_varstr magic) (fun a => bind (stream_varstr m) (fun b => Ret (a ++ b))).
+
+Lemma hash_for_signing_frame dsha magic m z : hash_for_signing dsha magic m = Ret z ->
+  exists f, frame magic m = Ret f /\ z = from_bytes_32 (dsha f).
+Proof.
+  unfold hash_for_signing, frame. intros H.
+  apply bind_ret_inv in H. destruct H as (a & -> & H).
+  apply bind_ret_inv in H. destruct H as (b & -> & H). apply Ret_inj in H.
+  cbn [bind]. eauto.
+Qed.
+
+Lemma frame_inj magic m magic' m' f :
+  (N.of_nat (length magic) < 2 ^ 63)%N -> (N.of_nat (length m) < 2 ^ 63)%N ->
+  (N.of_nat (length magic') < 2 ^ 63)%N -> (N.of_nat (length m') < 2 ^ 63)%N ->
+  frame magic m = Ret f -> frame magic' m' = Ret f -> magic = magic' /\ m = m'.
+Proof.
+  intros L1 L2 L3 L4 F1 F2. unfold frame in F1, F2.
+  apply bind_ret_inv in F1. destruct F1 as (a & Ha & F1).
+  apply bind_ret_inv in F1. destruct F1 as (b & Hb & F1). apply Ret_inj in F1.
+  apply bind_ret_inv in F2. destruct F2 as (a' & Ha' & F2).
+  apply bind_ret_inv in F2. destruct F2 as (b' & Hb' & F2). apply Ret_inj in F2.
+  destruct (varstr_frame magic b L1) as (pa & Epa & Pa). rewrite Ha in Epa. apply Ret_inj in Epa. subst pa.
+  destruct (varstr_frame magic' b' L3) as (pa' & Epa' & Pa'). rewrite Ha' in Epa'. apply Ret_inj in Epa'. subst pa'.
+  rewrite F1 in Pa. rewrite F2 in Pa'. rewrite Pa in Pa'. apply Ret_inj in Pa'.
+  injection Pa' as E1 E2. split; [exact E1|]. subst b'.
+  destruct (varstr_frame m [] L2) as (pb & Epb & Pb). rewrite Hb in Epb. apply Ret_inj in Epb. subst pb.
+  destruct (varstr_frame m' [] L4) as (pb' & Epb' & Pb'). rewrite Hb' in Epb'. apply Ret_inj in Epb'. subst pb'.
+  rewrite Pb in Pb'. apply Ret_inj in Pb'. now injection Pb'.
+Qed.
